@@ -396,6 +396,30 @@ pub fn decorate(a: &mut Action, rng: &mut Rng, intensity: u64) {
         eintr,
     } = a
     {
+        // arbitrary white space between tokens is allowed (UCI): runs of blanks, tabs, and
+        // blanks before and after the line
+        if rng.below(100) < 4 * intensity && !line.is_empty() {
+            let mut out = String::new();
+            if rng.chance(1, 4) {
+                out.push_str(if rng.chance(1, 2) { " " } else { "\t" });
+            }
+            for c in line.chars() {
+                if c == ' ' {
+                    match rng.below(8) {
+                        0 => out.push_str("  "),
+                        1 => out.push('\t'),
+                        2 => out.push_str(" \t "),
+                        _ => out.push(' '),
+                    }
+                } else {
+                    out.push(c);
+                }
+            }
+            if rng.chance(1, 4) {
+                out.push(' ');
+            }
+            *line = out;
+        }
         if rng.below(100) < 10 * intensity {
             let n = rng.range(1, 3);
             for _ in 0..n {
